@@ -252,6 +252,7 @@ def run(run: common.Run):
                         model=[{k: str(v) for k, v in m.items()} for m in (model_stats or [])][:1]), 4)
     if run.only is None:
         near_identical_leg(run, tmp)
+        big_count_leg(run, tmp)
     cli_json(run, tmp)
 
 
@@ -302,6 +303,50 @@ def near_identical_leg(run, tmp):
                     run.fail(case, f'band {b + 1}: N {row["n"]}, RMSE {row["rmse"]!r}, rRMSE {row["rrmse"]!r}; by definition over the '
                              f'{int(jv.sum())} jointly valid pixels {rmse!r}, {rr!r}', signature=dict(kind='stat-def', op='near-identical'))
                     break
+
+
+def big_count_leg(run, tmp):
+    """
+    More jointly valid pixels than single precision can count (2^24 = 16 777 216): a 4100 x 4100 pair on one grid with scattered
+    nodata pixels and an odd number of jointly valid ones - N is that number exactly, for one block and for many.
+    """
+    import rasterio as rio
+    from rasterio.transform import Affine
+    from homonim import RasterCompare
+    n = 4100
+    rng = np.random.default_rng(run.seed + 11)
+    a = rng.integers(1, 200, size=(n, n), dtype=np.uint8)
+    b = a.copy()
+    b[::7, ::5] += 1
+    a[rng.integers(0, n, 900), rng.integers(0, n, 900)] = 0
+    b[rng.integers(0, n, 700), rng.integers(0, n, 700)] = 0
+    if int(((a != 0) & (b != 0)).sum()) % 2 == 0:
+        a[0, 0] = 0 if b[0, 0] != 0 and a[0, 0] != 0 else a[0, 0]
+        if int(((a != 0) & (b != 0)).sum()) % 2 == 0:
+            a[1, 1], b[1, 1] = (0, b[1, 1]) if a[1, 1] != 0 and b[1, 1] != 0 else (a[1, 1], b[1, 1])
+    want = int(((a != 0) & (b != 0)).sum())
+    prof = dict(driver='GTiff', width=n, height=n, count=1, dtype='uint8', crs='EPSG:32735', transform=Affine(2, 0, 400000, 0, -2, 7000000),
+                nodata=0, tiled=True, blockxsize=512, blockysize=512, compress='deflate', zlevel=1)
+    sp, rp = tmp / 'c11big_s.tif', tmp / 'c11big_r.tif'
+    for p_, arr in ((sp, a), (rp, b)):
+        with rio.open(p_, 'w', **prof) as ds:
+            ds.write(arr, 1)
+    for mbm, th in ((512, 1), (4, 4)):
+        case = dict(i=710_000 + th, op='more than 2^24 jointly valid pixels', expected_n=want, max_block_mem=mbm, threads=th)
+        try:
+            with warnings.catch_warnings():
+                warnings.simplefilter('ignore')
+                with RasterCompare(sp, rp) as cmp:
+                    st = cmp.process(threads=th, max_block_mem=mbm)
+        except Exception as ex:
+            run.fail(case, f'compare raised {type(ex).__name__}: {ex}', signature=dict(kind='raises', op='big'))
+            continue
+        run.evaluations += 1
+        run.hist['pairs with more than 2^24 jointly valid pixels'] += 1
+        run.nontrivial.add(('big-n', mbm))
+        got = [v['n'] for k_, v in st.items() if k_ != 'Mean']
+        if got != [want]:
+            run.fail(case, f'N = {got}, the number of jointly valid pixels is {want}', signature=dict(kind='stat-def', op='big-n'))
 
 
 def cli_json(run, tmp):
